@@ -641,3 +641,15 @@ Theorem C15_exactly_once_string_loop :
                (length (st_reqs ts) <= S (length (after last0 L)))%nat.
 Proof. exact string_loop_exactly_once. Qed.
 Print Assumptions C15_exactly_once_string_loop.
+
+(* the fifth link form, <./seg?q>: relative to the directory of the request path *)
+Theorem C15_next_request_dot_relative :
+  forall c base dirs lastB seg Q trailer,
+    s_path base = c_sl :: join [c_sl] (dirs ++ [lastB]) ->
+    Forall seg_ok dirs -> seg_ok lastB -> seg_ok seg ->
+    forallb path_char seg = true -> forallb query_char Q = true ->
+    link_ok (c_dot :: c_sl :: seg ++ c_qm :: Q) -> contains c_gt (c_dot :: c_sl :: seg ++ c_qm :: Q) = false ->
+    next_request c base (c_lt :: (c_dot :: c_sl :: seg ++ c_qm :: Q) ++ c_gt :: trailer) =
+    NNext (c_sl :: join [c_sl] (dirs ++ [seg])) (request_query c Q []).
+Proof. exact next_request_dot_relative. Qed.
+Print Assumptions C15_next_request_dot_relative.
